@@ -612,9 +612,43 @@ def _tags(fa: FA, e, at, depth=0):
     raise AnalysisError("%s: cannot tell which argument tag `%s` is" % (fa.qual, A.short(e, 50)))
 
 
+def check_plain_json(ck, R):
+    """"The emitted document is plain JSON": `json.dumps` writes the bare tokens NaN / Infinity / -Infinity for non-finite floats
+    unless told `allow_nan=False`; they are not JSON (RFC 8259) and strict parsers, such as those of other language
+    implementations, reject the file.  Either the dump of the memento document forbids them, or the argument encoder never lets
+    a non-finite float through as a bare number (a finiteness test on the path of its number case)."""
+    ck.rule(R, "the memento document never contains the non-JSON tokens NaN / Infinity", 1)
+    pm = FA(ck, "storage_base.DataSourceMetadataSource.put_memento")
+    dumps = [c for c in pm.calls() if A.call_attr(c) in ("dumps", "dump")]
+    ck.need(dumps, "put_memento: no json dump found")
+    strict = all(A.norm(A.kwarg(c, "allow_nan")) == "False" for c in dumps)
+    ea = FA(ck, MC + ".encode_arg")
+    guarded = False
+    for r in ea.returns():
+        items = _dict_items(r.value) if r.value is not None else None
+        if not items:
+            continue
+        tags = set()
+        for (k, v) in items:
+            if k == "type" and ea.nodes(r):
+                tags |= _tags(ea, v, ea.nodes(r)[0])
+        if "number" not in tags:
+            continue
+        conds = ea.conditions(r) or []
+        # on every way to the bare-number case a finiteness test (or a non-float type test alone) has been passed
+        if conds and all(any(("isfinite(" in t and pol) or (("isnan(" in t or "isinf(" in t) and not pol) for (t, pol) in conj) for conj in conds):
+            guarded = True
+    ok = strict or guarded
+    ck.ob(R, pm.key(None, "plain-json"), ok, "non-finite floats cannot reach the document as bare tokens" if ok else
+          "encode_arg passes every float through as a bare number and put_memento dumps with the default allow_nan=True: a call such as "
+          "f(float('nan')) or f([inf]) is recorded as a file containing NaN / Infinity, which is not JSON - strict parsers and the readers of "
+          "other language implementations reject it", pm.where(dumps[0]))
+
+
 def check(ck):
     from .memo import check_new_memo_tables
     ck.run(check_new_memo_tables, ck, "C11.M1", ('serialization', 'reference', 'metadata'))
+    ck.run(check_plain_json, ck, "C11.R8")
     R1, R2, R3, R4, R5 = ("C11.R%d" % i for i in range(1, 6))
     ck.rule(R1, "pairwise key agreement: for each encode/decode pair the keys of the emitted object equal the keys the decoder reads", 7)
     ck.rule(R2, "field coverage: for each rebuilt class, constructor parameters == keyword arguments the decoder passes, "
